@@ -5,6 +5,7 @@ CONSTANTS
   SharedDefault = FALSE
   AliasInput = FALSE
   LeakyObserver = FALSE
+  AliasResult = FALSE
 INVARIANT Independent
 INVARIANT Deterministic
 INVARIANT FreshDefaults
